@@ -95,43 +95,56 @@ func rulesC11(c *Ctx) {
 	}
 	ruleC01Seek(c)
 
-	// --- locate the decoder from the STRING token ------------------------------------------
+	// --- locate the decoder: what turns the STRING token's text into a constant's value --------
+	// (in the listener itself or in a free function it hands the token text to)
 	vt := p.SSAFunc(p.Method("ast", "ToBoltListener", "VisitTerminal"))
 	c.Analysed(FnName(vt))
 	strConst := p.Named("ast", "StringConstNode")
-	stringTok := constInt(p.Obj("zitiql", "ZitiQlLexerSTRING"))
 	var decoder *ssa.Function
-	fi := ComputeFacts(vt)
 	okProv := false
-	for _, b := range vt.Blocks {
-		for _, in := range b.Instrs {
-			st, ok := in.(*ssa.Store)
-			if !ok {
-				continue
+	lfs := listenerFuncs(c)
+	isTokenText := func(fn *ssa.Function, v ssa.Value) bool {
+		if gt, ok := v.(*ssa.Call); ok && gt.Call.IsInvoke() && gt.Call.Method.Name() == "GetText" {
+			return true
+		}
+		// a parameter of a free decoder function: every caller hands it the token text
+		prm, isParam := v.(*ssa.Parameter)
+		if !isParam || fn.Signature.Recv() != nil {
+			return false
+		}
+		idx := -1
+		for i, q := range fn.Params {
+			if q == prm {
+				idx = i
 			}
-			f, base := fieldOfAddr(st.Addr)
-			if f == nil || f.Name() != "value" || namedOf(base.Type()) != strConst {
-				continue
-			}
-			underString := fi.HoldsWhere(b, func(ft Fact) bool {
-				bo, isB := ft.V.(*ssa.BinOp)
-				if ft.Kind != "true" || !ft.Pol || !isB || bo.Op != token.EQL {
+		}
+		n := 0
+		for _, caller := range lfs {
+			for _, call := range callsIn(caller) {
+				if call.Common().StaticCallee() != fn || idx < 0 || idx >= len(call.Common().Args) {
+					continue
+				}
+				n++
+				if gt, ok := call.Common().Args[idx].(*ssa.Call); !ok || !gt.Call.IsInvoke() || gt.Call.Method.Name() != "GetText" {
 					return false
 				}
-				kk, isK := bo.Y.(*ssa.Const)
-				if !isK || kk.Value == nil {
-					return false
-				}
-				v, _ := constant.Int64Val(kk.Value)
-				return v == stringTok
-			})
-			if !underString {
-				continue
 			}
-			if call, ok := st.Val.(*ssa.Call); ok {
-				if sc := call.Call.StaticCallee(); sc != nil && len(call.Call.Args) == 1 {
-					// argument is node.GetText()
-					if gt, ok := call.Call.Args[0].(*ssa.Call); ok && gt.Call.IsInvoke() && gt.Call.Method.Name() == "GetText" {
+		}
+		return n > 0
+	}
+	for _, fn := range lfs {
+		for _, b := range fn.Blocks {
+			for _, in := range b.Instrs {
+				st, ok := in.(*ssa.Store)
+				if !ok {
+					continue
+				}
+				f, base := fieldOfAddr(st.Addr)
+				if f == nil || f.Name() != "value" || namedOf(base.Type()) != strConst {
+					continue
+				}
+				if call, ok := st.Val.(*ssa.Call); ok {
+					if sc := call.Call.StaticCallee(); sc != nil && len(call.Call.Args) == 1 && isTokenText(fn, call.Call.Args[0]) {
 						decoder = sc
 						okProv = true
 					}
@@ -537,14 +550,8 @@ func ruleC11Unescape(c *Ctx) {
 	valFld := p.Field("ast", "StringConstNode", "value")
 	unesc := p.Func("zitiql", "ParseZqlString")
 	n := 0
-	for _, fn := range c.prodFuncs("ast") {
-		root := fn
-		for root.Parent() != nil {
-			root = root.Parent()
-		}
-		if root.Signature.Recv() == nil || namedOf(root.Signature.Recv().Type()) != lst {
-			continue
-		}
+	_ = lst
+	for _, fn := range listenerFuncs(c) {
 		for _, b := range fn.Blocks {
 			for _, in := range b.Instrs {
 				st, ok := in.(*ssa.Store)
